@@ -752,7 +752,8 @@ func exec(x *fw.Ctx, c Case) {
 func init() {
 	fw.Register(fw.Spec[Case]{
 		ID: "C08",
-		Rule: "3 fixed probe programs (forward call with arguments, caller created between two redefinitions, lambda head with a bare outer variable), then " +
+		Rule: "case kinds: (A) programs - " +
+			"3 fixed probe programs (forward call with arguments, caller created between two redefinitions, lambda head with a bare outer variable), then " +
 			"seeded programs of 2-4 defuns (DAG calls, self recursion, mutual recursion on a decreasing " +
 			"counter; arguments, let/let*, if/cond/when/unless, and/or, setq, dotimes, funcall/apply, lambda forms, list building, trace markers, 0-3 global variables) " +
 			"plus a main form; each program is run under the orders of its defuns (all; quick tier: 10 of the 24 orders of 4 defuns) x 8 delivery modes (form by form, " +
@@ -761,7 +762,12 @@ func init() {
 			"1-3 redefinitions with renamed parameters; every second history redefines one function repeatedly); every name is fresh per treatment. One case in six has " +
 			"only parameterless functions (recursion on a global counter). Avoid set: a lambda in operator position with a bare outer variable as body (listed finding) is " +
 			"kept to a few percent of programs; (funcall f) without arguments is never generated (C04). " +
-			"distinct = distinct program+history; non-trivial = the main form produces at least 2 trace markers",
+			"(B) reeval, a model-free relation monitor over the forms that receive raw list arguments (enumerated at run time from FuncDoc kind / SkipEval; the ones " +
+			"without a committed argument template are counted as reeval-not-templated:<name>): a deterministic block (every template on leaf data, every ordered pair " +
+			"of templates) then seeded compositions of depth <= 3 with all arguments written as lists and all data bound inside the form; the same Code object " +
+			"evaluated 5 times in list form, after Code.Compile, as CompileString object, and as the body of a defun (list form and compiled) called 5 times must give " +
+			"the value and marker trace of a fresh read+eval of the same text. Seeded cases alternate A and B. " +
+			"distinct = distinct case; non-trivial = A: the main form produces at least 2 trace markers, B: the fresh evaluation is not an error",
 		N:     nCases,
 		Gen:   genC,
 		Exec:  exec,
